@@ -377,7 +377,162 @@ func runC19(seed int64, n int, tier string) *Result {
 	}
 	det, g := deterministicFrames19()
 	res.Cases = append(res.Cases, Case{Gallina: g, Input: "deterministic: one symbol, two out-ports, responses in the opposite order of the requests", Nontrivial: true, Key: "det", OracleFail: det})
+	res.Cases = append(res.Cases, Case{Gallina: "(mk19 [] [])", Input: "deterministic: two requests outstanding on one in-port (fan-in), answered by two goroutines at once, the first held inside the packet hooks", Nontrivial: true, Key: "det-pairing", OracleFail: deterministicPairing19()})
+	res.Cases = append(res.Cases, Case{Gallina: "(mk19 [] [])", Input: "deterministic: a process terminates between a port's liveness check and the agent's open hook; another process then sends a request", Nontrivial: true, Key: "det-exit-during-open", OracleFail: deterministicExitDuringOpen19()})
 	return res
+}
+
+// deterministicPairing19: two requests are outstanding on one in-port reader of one process (fan-in from two
+// out-ports); two goroutines answer them, the second arriving while the first is held inside the reader's packet
+// hooks (by a hook of the harness that runs ahead of the agent's).  The frame of each request must hold the packet
+// that answered THAT request.
+func deterministicPairing19() (fail string) {
+	defer func() {
+		if p := recover(); p != nil {
+			fail = fmt.Sprintf("deterministic pairing scenario panicked: %v", p)
+		}
+	}()
+	a := uruntime.NewAgent()
+	sym := &symbol.Symbol{Spec: &spec.Meta{ID: uuid.Must(uuid.NewV7()), Kind: "k", Namespace: "default", Name: "fanin"}, Node: node.NewOneToOneNode(nil)}
+	in := sym.In(node.PortIn)
+	first := make(chan struct{})
+	second := make(chan struct{})
+	var calls int
+	var mu sync.Mutex
+	gate := packet.HookFunc(func(*packet.Packet) {
+		mu.Lock()
+		calls++
+		c := calls
+		mu.Unlock()
+		if c == 1 {
+			close(first)
+			select {
+			case <-second:
+			case <-time.After(150 * time.Millisecond): // the second caller cannot get this far while the first holds the reader
+			}
+		} else if c == 2 {
+			close(second)
+		}
+	})
+	if err := a.Load(sym); err != nil {
+		return "agent.Load: " + err.Error()
+	}
+	// open hooks run latest first: registered after Load, this one runs ahead of the agent's, so the gate is the
+	// first packet hook of the reader
+	in.AddOpenHook(port.OpenHookFunc(func(proc *process.Process) { in.Open(proc).AddOutboundHook(gate) }))
+	o1, o2 := port.NewOut(), port.NewOut()
+	o1.Link(in)
+	o2.Link(in)
+	proc := process.New()
+	w1, w2 := o1.Open(proc), o2.Open(proc)
+	rd := in.Open(proc)
+	p1, p2 := packet.New(types.NewInt(1)), packet.New(types.NewInt(2))
+	if w1.Write(p1) != 1 || recvTimeout(rd.Read()) == nil || w2.Write(p2) != 1 || recvTimeout(rd.Read()) == nil {
+		return "deterministic pairing scenario: the two requests did not reach the in-port"
+	}
+	a1, a2 := packet.New(types.NewInt(1001)), packet.New(types.NewInt(1002))
+	done := make(chan struct{}, 2)
+	go func() { rd.Receive(a1); done <- struct{}{} }()
+	select {
+	case <-first:
+	case <-time.After(2 * time.Second):
+		return "deterministic pairing scenario: the first answer never reached the packet hooks"
+	}
+	go func() { rd.Receive(a2); done <- struct{}{} }()
+	for i := 0; i < 2; i++ {
+		select {
+		case <-done:
+		case <-time.After(3 * time.Second):
+			return "deterministic pairing scenario: Reader.Receive did not return within 3s"
+		}
+	}
+	b1, b2 := recvTimeout(w1.Receive()), recvTimeout(w2.Receive())
+	if b1 == nil || b2 == nil || intOf(b1) != 1001 || intOf(b2) != 1002 {
+		return fmt.Sprintf("deterministic pairing scenario: writer 1 got %v and writer 2 got %v (want 1001 and 1002)", b1, b2)
+	}
+	for _, f := range a.Frames(proc.ID()) {
+		if f.InPort != in || f.InPck == nil || f.OutPck == nil {
+			continue
+		}
+		if intOf(f.OutPck) != intOf(f.InPck)+1000 {
+			return fmt.Sprintf("the frame of request %d on the in-port holds response %d; that request was answered with %d",
+				intOf(f.InPck), intOf(f.OutPck), intOf(f.InPck)+1000)
+		}
+	}
+	proc.Exit(nil)
+	o1.Close()
+	o2.Close()
+	_ = sym.Close()
+	a.Close()
+	return ""
+}
+
+// deterministicExitDuringOpen19: a process terminates after a port has found it alive and before the agent's open
+// hook sees it (an open hook of the harness, ordered ahead of the agent's, exits it).  With or without the agent a
+// request of another process must then be answered.
+func deterministicExitDuringOpen19() (fail string) {
+	defer func() {
+		if p := recover(); p != nil {
+			fail = fmt.Sprintf("deterministic exit-during-open scenario panicked: %v", p)
+		}
+	}()
+	for _, withAgent := range []bool{false, true} {
+		n := node.NewOneToOneNode(func(_ *process.Process, inPck *packet.Packet) (*packet.Packet, *packet.Packet) {
+			return packet.New(types.NewInt(intOf(inPck) + 1)), nil
+		})
+		sym := &symbol.Symbol{Spec: &spec.Meta{ID: uuid.Must(uuid.NewV7()), Kind: "k", Namespace: "default", Name: "echo"}, Node: n}
+		in := sym.In(node.PortIn)
+		sym.Out(node.PortOut)
+		sym.Out(node.PortError)
+		dying := process.New()
+		var a *uruntime.Agent
+		if withAgent {
+			a = uruntime.NewAgent()
+			if err := a.Load(sym); err != nil {
+				return "agent.Load: " + err.Error()
+			}
+		}
+		// open hooks run latest first: this one runs ahead of the agent's
+		in.AddOpenHook(port.OpenHookFunc(func(proc *process.Process) {
+			if proc == dying {
+				proc.Exit(nil)
+			}
+		}))
+		opened := make(chan struct{})
+		go func() { in.Open(dying); close(opened) }()
+		select {
+		case <-opened:
+		case <-time.After(2 * time.Second):
+			if withAgent {
+				return "with the agent attached, opening a port for a process that terminates during the open never returns (it returns without the agent)"
+			}
+			return "opening a port for a process that terminates during the open never returns"
+		}
+		src := port.NewOut()
+		src.Link(in)
+		other := process.New()
+		w := src.Open(other)
+		got := make(chan *packet.Packet, 1)
+		go func() { got <- packet.Send(w, packet.New(types.NewInt(41))) }()
+		select {
+		case b := <-got:
+			if b == nil || intOf(b) != 42 {
+				return fmt.Sprintf("the request of an unrelated process was answered with %v (want 42), agent attached: %v", b, withAgent)
+			}
+		case <-time.After(2 * time.Second):
+			if withAgent {
+				return "the request of an unrelated process gets its answer without the agent, but no answer within 2s with the agent attached (a process had terminated while a port was being opened for it)"
+			}
+			return "the request of an unrelated process gets no answer within 2s after another process terminated while a port was being opened for it"
+		}
+		other.Exit(nil)
+		src.Close()
+		_ = sym.Close()
+		if a != nil {
+			a.Close()
+		}
+	}
+	return ""
 }
 
 // deterministicFrames19: one one-to-many symbol whose two out-ports are answered in the opposite order:
